@@ -9,7 +9,9 @@
 (*   consumer  : commits an entry for the key iff the stream ended cleanly (HTTP server: complete request    *)
 (*               body; command: `cat > tmp && mv tmp final`).                                                 *)
 (*   retrieve  : a miss if nothing is committed; a transport fault or a failing command during retrieval     *)
-(*               makes it a miss; otherwise a hit that restores what the committed stream contains.          *)
+(*               makes it a miss -- also when the fault is silent (the stream simply ends early, even exactly *)
+(*               on an entry boundary, with a zero exit status); otherwise a hit that restores what the      *)
+(*               committed stream contains.                                                                  *)
 (* Property: a reported hit restores exactly the stored set of files.                                        *)
 EXTENDS Naturals, Sequences, FiniteSets, TLC, Json
 CONSTANTS MaxFiles, Flaw_HttpClosesNormally, Emit
@@ -18,13 +20,15 @@ VARIABLES kind, n,          \* cache kind, number of files to store
           readFaultAt,      \* 0 = none, else the file whose read fails
           sendFaultAt,      \* 0 = none, else the transport fails after this many entries were sent
           getFaultAt,       \* 0 = none, else the retrieval stream fails after this many entries
+          getSilent,        \* the retrieval fault is not signalled (command exits 0 / connection closes cleanly): the stream just ends early
           pc, sent, skipped, committed, result, restored
-vars == <<kind, n, readFaultAt, sendFaultAt, getFaultAt, pc, sent, skipped, committed, result, restored>>
+vars == <<kind, n, readFaultAt, sendFaultAt, getFaultAt, getSilent, pc, sent, skipped, committed, result, restored>>
 None == <<>>
 Init == /\ kind \in Kinds /\ n \in 1..MaxFiles
         /\ readFaultAt \in 0..MaxFiles /\ readFaultAt <= n
         /\ sendFaultAt \in 0..MaxFiles /\ sendFaultAt <= n
         /\ getFaultAt \in 0..MaxFiles /\ getFaultAt <= n
+        /\ getSilent \in BOOLEAN /\ (getSilent => getFaultAt > 0)
         /\ (readFaultAt = 0 \/ sendFaultAt = 0)          \* one store fault per scenario
         /\ pc = "produce" /\ sent = <<>> /\ skipped = {} /\ committed = None /\ result = "none" /\ restored = {}
 AbortsOnReadFault == kind = "cmd" \/ ~Flaw_HttpClosesNormally
@@ -37,18 +41,18 @@ Produce ==
           THEN IF AbortsOnReadFault THEN pc' = "aborted" /\ UNCHANGED <<sent, skipped>>
                ELSE skipped' = skipped \cup {i} /\ UNCHANGED <<pc, sent>>      \* warning, carry on
           ELSE sent' = Append(sent, i) /\ UNCHANGED <<pc, skipped>>
-  /\ UNCHANGED <<kind, n, readFaultAt, sendFaultAt, getFaultAt, committed, result, restored>>
+  /\ UNCHANGED <<kind, n, readFaultAt, sendFaultAt, getFaultAt, getSilent, committed, result, restored>>
 \* the consumer commits only a cleanly terminated stream
 Consume == /\ pc \in {"closed", "aborted"}
            /\ committed' = IF pc = "closed" THEN <<sent>> ELSE None
            /\ pc' = "stored"
-           /\ UNCHANGED <<kind, n, readFaultAt, sendFaultAt, getFaultAt, sent, skipped, result, restored>>
+           /\ UNCHANGED <<kind, n, readFaultAt, sendFaultAt, getFaultAt, getSilent, sent, skipped, result, restored>>
 Retrieve == /\ pc = "stored" /\ pc' = "done"
             /\ IF committed = None THEN result' = "miss" /\ restored' = {}
                ELSE IF getFaultAt # 0 /\ getFaultAt <= Len(committed[1])
                     THEN result' = "miss" /\ restored' = {committed[1][j] : j \in 1..(getFaultAt - 1)}
                     ELSE result' = "hit" /\ restored' = {committed[1][j] : j \in 1..Len(committed[1])}
-            /\ UNCHANGED <<kind, n, readFaultAt, sendFaultAt, getFaultAt, sent, skipped, committed>>
+            /\ UNCHANGED <<kind, n, readFaultAt, sendFaultAt, getFaultAt, getSilent, sent, skipped, committed>>
 Next == Produce \/ Consume \/ Retrieve
 Spec == Init /\ [][Next]_vars
 \* C13
@@ -56,5 +60,5 @@ HitIsComplete == result = "hit" => restored = 1..n
 NoPartialCommit == committed # None => Len(committed[1]) = n
 EmitCase == (Emit /\ pc = "done") =>
    PrintT(<<"CASE", ToJson([kind |-> kind, files |-> n, readFaultAt |-> readFaultAt, sendFaultAt |-> sendFaultAt,
-                            getFaultAt |-> getFaultAt, expectCommitted |-> committed # None, expect |-> result])>>)
+                            getFaultAt |-> getFaultAt, getSilent |-> getSilent, expectCommitted |-> committed # None, expect |-> result])>>)
 =============================================================================
